@@ -444,8 +444,9 @@ pub fn judge_supply(t: &SupplyTrace, o: &SupplyOutcome) -> SupplyJudgement {
                         ));
                         break;
                     }
-                    if s["name"] != Value::String(String::new()) {
-                        f.push(finding("C15", "summary-name", format!("summary name {} is not the requested (empty) one", s["name"])));
+                    let want = t.step_name.clone().unwrap_or_default();
+                    if s["name"] != Value::String(want.clone()) {
+                        f.push(finding("C15", "summary-name", format!("summary name {} is not the requested one ({:?})", s["name"], want)));
                         break;
                     }
                 }
